@@ -123,11 +123,21 @@ func setMemLimit(gib uint64) {
 	_ = syscall.Setrlimit(syscall.RLIMIT_AS, &lim)
 }
 
+// ProtoOut is where a worker writes its protocol lines: file descriptor 3 when the parent set VERIF_PROTO_FD (the code
+// under test may print to the process's standard output - a built-in called with odd arguments, a warning of the
+// interpreter - and such text must not land inside a protocol line), standard output otherwise (manual runs).
+func ProtoOut() *os.File {
+	if os.Getenv("VERIF_PROTO_FD") == "3" {
+		return os.NewFile(3, "proto")
+	}
+	return os.Stdout
+}
+
 // StaticWorker enumerates the tier's cases and executes those of its shard.
 func StaticWorker(p *Prop, tier string, shard, n int, journalPath string, resume int, memGiB uint64) {
 	setMemLimit(memGiB)
 	j := openJournal(journalPath)
-	out := bufio.NewWriterSize(os.Stdout, 1<<16)
+	out := bufio.NewWriterSize(ProtoOut(), 1<<16)
 	defer out.Flush()
 	enc := json.NewEncoder(out)
 	sum := Summary{T: "sum", Shard: shard, Counters: map[string]int{}}
@@ -229,7 +239,7 @@ func ServeWorker(p *Prop, journalPath string, memGiB uint64) {
 	setMemLimit(memGiB)
 	j := openJournal(journalPath)
 	in := bufio.NewReaderSize(os.Stdin, 1<<20)
-	out := bufio.NewWriterSize(os.Stdout, 1<<16)
+	out := bufio.NewWriterSize(ProtoOut(), 1<<16)
 	enc := json.NewEncoder(out)
 	k := 0
 	for {
